@@ -650,8 +650,8 @@ def _own_printed_form(prog, f, e):
     if subj is None or len(owners) != 1 or None in owners:
         return e
     m = prog.functions[owners.pop()]
-    body = [b for b in m.node.body if not (
-        isinstance(b, ast.Expr) and isinstance(b.value, ast.Constant))]
+    from ..util import inert_stmt
+    body = [b for b in m.node.body if not inert_stmt(b)]
     if len(body) != 1 or not isinstance(body[0], ast.Return) or \
             body[0].value is None:
         return e
